@@ -6,7 +6,7 @@ import numpy as np
 
 from pvmon import netgen
 from pvmon.monitors import Obs
-from pvmon.props.common import rng_for
+from pvmon.props.common import suite_cases, run_suite_case, rng_for
 
 MANIFEST = {
     "text": "Held on every observed run: (A) the Newton trace delivered by the guarded hook shows that each normally returned pipeflow ended every stage on an undamped, in-tolerance, finite step with net.converged set and finite results, and each PipeflowNotConverged stayed within its budget, left net.converged false and every result table without a number - also along histories of good and bad runs on one object, for feasible, infeasible, singular and NaN-producing nets in all four modes; (B) the real iteration driver fed with all scripted error/residual sequences up to the stated length agrees with a reference state machine of the documented damping rules.",
@@ -186,7 +186,10 @@ MODES = ["hydraulics", "sequential", "bidirectional", "heat"]
 
 def gen_cases(tier, seed):
     out = [{"kind": "history", "seed": seed, "i": i} for i in range(CONFIG[tier]["histories"])]
-    return out + driver_cases(tier)
+    _cases = out + driver_cases(tier)
+    if tier == "thorough":
+        _cases = list(_cases) + suite_cases()
+    return _cases
 
 
 def hostile(spec, rng, how):
@@ -388,6 +391,12 @@ def run_history(case, obs):
 
 
 def run_case(case, ctx):
+    if case.get("kind") == "repo_suite":
+        obs = Obs()
+        n = run_suite_case(case, "C05", obs)
+        rec = {"nontrivial": n > 0, "sample": {"repo_suite_part": case["part"], "pipeflow_calls_observed": n}, "evaluations": max(n, 1)}
+        rec.update(obs.record())
+        return rec
     obs = Obs()
     if case["kind"] == "driver":
         run_driver(case, obs)
